@@ -1,6 +1,99 @@
+"""ncon / einsum section of C01 (no swap gates here; fermionic networks are C05)."""
+import itertools
+
+import numpy as np
+import yastn
+
+from vmc.gen import legs as GL, tensors as GT, networks as NW
+from vmc.models import dense as MD, groups as G
+from . import _tcommon as TC
+from . import _netcommon as NC
+
+INEFFICIENT = "Likely inefficient order"
+
+
 def groups(base, tier):
-    return []
+    P = 4 if tier == 'quick' else 16
+    return [dict(base, sec='n_ncon', part=p, parts=P, level=1) for p in range(P)]
+
+
+def conj_menu(nt, tier):
+    if tier != 'quick' or nt <= 2:
+        return list(itertools.product((0, 1), repeat=nt))
+    return [(0,) * nt, tuple(i % 2 for i in range(nt)), (1,) * nt, tuple((i + 1) % 2 for i in range(nt))]
+
+
+def cases(g, tier):
+    sym = g['sym']
+    nets = NW.networks(3, 3, 6 if tier == 'quick' else 8, max_open=4) if tier == 'quick' else \
+        NW.networks(4, 3, 8, max_open=4)
+    k = -1
+    for net in nets:
+        k += 1
+        if k % g['parts'] != g['part']:
+            continue
+        nt = len(net['ranks'])
+        npairs = len(net['pairs'])
+        nopen = sum(net['ranks']) - 2 * npairs
+        operms = NW.out_perms(nopen, 0 if tier == 'quick' else 1)
+        if tier == 'quick' and len(operms) > 2:
+            operms = [operms[0], operms[-1]]
+        orders = [None] + [list(p) for p in itertools.permutations(range(1, npairs + 1))][1:]
+        for alt in (0, 1):
+            for conjs in conj_menu(nt, tier):
+                for op in operms:
+                    for order in orders:
+                        for api in (('ncon', 'einsum') if order is None or npairs <= 2 else ('ncon',)):
+                            yield {'op': api, 'net': net, 'alt': alt, 'conjs': list(conjs), 'out_perm': list(op),
+                                   'order': order}
+
+
 def run_group(g, cfg, acc):
-    pass
+    sym = g['sym']
+    for case in cases(g, acc.tier):
+        acc.check_time()
+        case.update(sec='n_ncon', sym=sym, dtype=g['dtype'])
+        st, msg, nb = run_case(case, cfg, acc.seed)
+        if st == 'skip':
+            continue
+        acc.ev(repr(sorted(case.items())), nb >= 2 and st == 'ok', (case['op'], st, len(case['net']['ranks'])))
+        acc.cnt['ncon_' + st] += 1
+        if st == 'viol':
+            acc.fail(case, msg)
+        elif acc.evaluations % 1009 == 0:
+            acc.sample(case)
+
+
 def replay(case, cfg):
-    return []
+    st, msg, _ = run_case(case, cfg, case.get('seed', 0))
+    return [msg] if st == 'viol' else []
+
+
+def run_case(case, cfg, seed):
+    sym, net = case['sym'], case['net']
+    od = NC.operand_descriptors(sym, net, case['conjs'], alt=case['alt'])
+    if od is None:
+        return 'skip', None, 0
+    tds, s_eff, menu = od
+    built = [GT.build(cfg, sym, td, seed) for td in tds]
+    nb = sum(b.nblocks for b in built)
+    try:
+        R, spaces, sig, ntot, inds = NC.reference(sym, net, built, case['conjs'], case['out_perm'])
+    except MD.ShadowError as e:
+        return 'skip', None, 0
+    ts = [b.x for b in built]
+    if case['op'] == 'ncon':
+        f = lambda: yastn.ncon(ts, inds, conjs=case['conjs'], order=case['order'])
+    else:
+        sub, ordr, _ = NC.einsum_strings(inds, case['conjs'], case['order'])
+        f = lambda: yastn.einsum(sub, *ts, order=ordr)
+    st, r = TC.call(f)
+    if st == 'yerr' and INEFFICIENT in r:
+        return 'rejected', None, nb
+    if st != 'ok':
+        return 'viol', f"{case['op']} inds={inds} order={case['order']}: unexpected {st}: {r}", nb
+    try:
+        m = TC.check_result(r, R, spaces, sig, ntot, what=f"{case['op']}(inds={inds}, conjs={case['conjs']}, order={case['order']})")
+    except MD.ShadowError as e:
+        m = str(e)
+    return ('viol', m, nb) if m else ('ok', None, nb)
